@@ -639,6 +639,14 @@ func (g *Gen) binopTerm(op token.Token, t, rt types.Type, x, y string, X, Y ssa.
 		return fmt.Sprintf("(ite (>= %s 0) (mod %s %s) (- (mod (- %s) %s)))", x, x, y, x, y)
 	case token.EQL, token.NEQ:
 		eq := fmt.Sprintf("(= %s %s)", x, y)
+		if isStr {
+			_, xc := X.(*ssa.Const)
+			_, yc := Y.(*ssa.Const)
+			if X != nil && Y != nil && !xc && !yc {
+				// extensional equality (same truth value; gives the solver the witness index for a disequality)
+				eq = fmt.Sprintf("(seqeq %s %s)", x, y)
+			}
+		}
 		if at, ok := t.Underlying().(*types.Array); ok && at.Len() <= 32 {
 			// element-wise comparison of small arrays (no array equality: extensionality reasoning is expensive)
 			var parts []string
